@@ -208,6 +208,17 @@ def jobs(tier, seed):
         out.append(_j(f'NT-2p-{mode}-manual-dealing', C.nt((4, 4), mode=mode, autos=MANUAL_DEAL), opts=o, dev_bound=6))
         out.append(_j(f'NT-2p-{mode}-all-auto', C.nt((3, 5), mode=mode, autos='ALL'), opts=o))
         out.append(_j(f'NS-2p-{mode}', C.nt((4, 5), mode=mode, antes=1, blinds=(0, 2), autos=SEMI, game='NoLimitShortDeckHoldem'), opts=o))
+    # hi-lo over several boards / run-outs on a tiny deck: how each board's share is split between hand types and winners is
+    # judged by the layered pot reference (refs/pots.py) for every deal
+    from itertools import permutations
+    WIDE = ['As', 'Ks', 'Qs', 'Js', '2s', '2h']
+    THREE = [(False, (False,), 0, False, 'POSITION', 1, None), (True, (), 1, False, 'POSITION', 1, None)]
+    for boards in (1, 2):
+        plans = [list(p) + [c for c in WIDE if c not in p] for p in permutations(WIDE, 2)]
+        for plan in plans[::1 if th else 2]:
+            out.append(_j(f'tiny-hilo-2p-cash-{boards}b', C.custom((3, 4), THREE, deck=WIDE, hand_types=('HighCardAny', 'JQLow'), antes=1,
+                                                                   mode='cash', boards=boards, autos=SEMI, plan=plan),
+                          opts={'raises': 'minmax', 'runouts': (None, 2, 3) if boards == 1 else (None, 2), 'show': (None,)}, pots=True))
     for j in out:
         j.setdefault('state_cap', 400000 if th else 60000)
         j.setdefault('time_cap', 700 if th else 70)
@@ -215,7 +226,11 @@ def jobs(tier, seed):
 
 
 def run_job(job):
-    r, ctx = sx.run(job, [RunoutMonitor('C14'), ErrorsMonitor('C14')], validated='offer_states_compared')
+    mons = [RunoutMonitor('C14'), ErrorsMonitor('C14')]
+    if job.get('pots'):
+        from .c02 import PotsMonitor
+        mons.append(PotsMonitor('C14'))
+    r, ctx = sx.run(job, mons, validated='offer_states_compared')
     return r
 
 
